@@ -90,13 +90,14 @@ func c02SliceLen(v ssa.Value, depth int) (int64, bool) {
 }
 
 type c02NonceWrite struct {
-	in       ssa.Instruction
-	lo, hi   int64 // [lo,hi) relative to the buffer; valid if known
-	known    bool
-	kind     int // see below
-	shift    int64
-	desc     string
-	putOrder string
+	in        ssa.Instruction
+	lo, hi    int64 // [lo,hi) relative to the buffer; valid if known
+	known     bool
+	kind      int // see below
+	shift     int64
+	desc      string
+	putOrder  string
+	uncertain bool // a call that receives the buffer: it may or may not write to it
 }
 
 const (
@@ -167,20 +168,15 @@ func c02ShiftOfNum(val ssa.Value, num ssa.Value) (int64, bool) {
 
 // c02NonceLayout classifies every write into the buffer returned by the nonce
 // builder fn and decides injectivity of the segment number.
-func c02NonceLayout(p *Prog, r *Report, callerName string, fn *ssa.Function) {
-	name := FuncName(p, fn)
+func c02NonceLayout(p *Prog, r *Report, callerName string, fn *ssa.Function, base ssa.Value, num, last *ssa.Parameter) {
+	name := c02Name(p, fn)
 	construct := callerName + " nonce counter layout in " + name
-	rule := "C02.T1-nonce-injective"
-	var num, last *ssa.Parameter
-	for _, pa := range fn.Params {
-		switch {
-		case c02IsBasicKind(pa.Type(), types.Uint32) && num == nil:
-			num = pa
-		case c02IsBool(pa.Type()) && last == nil:
-			last = pa
-		}
+	if callerName == name {
+		construct = callerName + " nonce counter layout (built in place)"
 	}
+	rule := "C02.T1-nonce-injective"
 	if num == nil || last == nil {
+		r.Undecide("%s: the segment number / finality flag do not reach the function that builds the nonce as plain parameters; cannot classify its layout", construct)
 		return
 	}
 	numIdx, lastIdx := c02ParamIndex(fn, num), c02ParamIndex(fn, last)
@@ -193,29 +189,10 @@ func c02NonceLayout(p *Prog, r *Report, callerName string, fn *ssa.Function) {
 		}
 		return false
 	}
-
-	// the buffer
-	var base ssa.Value
-	multi := false
-	allInstrs(fn, func(in ssa.Instruction) {
-		ret, ok := in.(*ssa.Return)
-		if !ok || len(ret.Results) == 0 || (len(ret.Block().Preds) == 0 && ret.Block().Index != 0) {
-			return
-		}
-		b := c02SliceBase(ret.Results[0])
-		if base != nil && base != b {
-			multi = true
-		}
-		base = b
-	})
 	switch base.(type) {
 	case *ssa.Alloc, *ssa.MakeSlice:
 	default:
 		r.Undecide("%s: the nonce is not built in a buffer allocated by %s itself; cannot classify its layout", construct, name)
-		return
-	}
-	if multi {
-		r.Undecide("%s: %s returns different buffers on different paths; cannot classify", construct, name)
 		return
 	}
 
@@ -338,7 +315,15 @@ func c02NonceLayout(p *Prog, r *Report, callerName string, fn *ssa.Function) {
 					}
 				case builtinName(u) == "copy" || builtinName(u) == "len" || builtinName(u) == "cap":
 					continue // read only
+				case callIs(u, "crypto/cipher", "AEAD", "Open") || callIs(u, "crypto/cipher", "AEAD", "Seal"):
+					if argIdx == 1 {
+						continue // the nonce is only read
+					}
+					w.kind = c02WOther
+					w.uncertain = true
+					w.desc = "use as a buffer of " + cc.Method.Name()
 				default:
+					w.uncertain = true
 					numDep, lastDep := false, false
 					for i, a := range cc.Args {
 						if i != argIdx && depends(a, numIdx) {
@@ -437,7 +422,7 @@ func c02NonceLayout(p *Prog, r *Report, callerName string, fn *ssa.Function) {
 		}
 		counter = bytes
 	case len(puts) == 0 && len(bytes) == 0:
-		if c02ReturnDeps(p, fn, 2)[numIdx] {
+		if c02ValueDeps(p, base, 2)[numIdx] {
 			r.Undecide("%s: the result depends on %s but no PutUint32/byte stores of it were recognised; cannot classify", construct, num.Name())
 		}
 		// otherwise T1-nonce-binding reports the missing dependence
@@ -476,8 +461,8 @@ func c02NonceLayout(p *Prog, r *Report, callerName string, fn *ssa.Function) {
 		if before {
 			continue // written first, the counter is stored over it
 		}
-		if !o.known {
-			r.Undecide("%s: %s at %s may run after the counter is stored and its extent is not constant; cannot show it leaves the counter intact", construct, o.desc, p.Pos(instrPos(o.in)))
+		if !o.known || (o.uncertain && len(overlapsCounter(o)) > 0) {
+			r.Undecide("%s: %s at %s may run after the counter is stored and what it writes is not known; cannot show it leaves the counter intact", construct, o.desc, p.Pos(instrPos(o.in)))
 			return
 		}
 		if hit := overlapsCounter(o); len(hit) > 0 {
@@ -491,4 +476,181 @@ func c02NonceLayout(p *Prog, r *Report, callerName string, fn *ssa.Function) {
 		what = "four byte stores byte(num>>{0,8,16,24}) at four distinct offsets"
 	}
 	r.OK(rule, construct, pos, what+"; window disjoint from the finality byte and not overwritten afterwards")
+}
+
+// ---------------------------------------------------------------------------
+// Append-built nonces: prefix, counter and flag are appended one after the
+// other (append / binary.*.AppendUint32), so the pieces cannot overlap; what
+// remains to decide is that all 32 bits of the segment number are among them.
+
+type c02AppendItem struct {
+	in    ssa.Instruction
+	val   ssa.Value // single byte value, or the appended slice, or the uint32 of AppendUint32
+	isPut bool
+	bytes bool // val is one byte
+}
+
+// c02IsAppendChain: v (after re-slicing without bounds) is the result of the
+// builtin append or of encoding/binary's AppendUint32.
+func c02IsAppendChain(v ssa.Value) bool {
+	call, ok := v.(*ssa.Call)
+	if !ok {
+		return false
+	}
+	if builtinName(call) == "append" {
+		return true
+	}
+	obj := calleeObj(call)
+	return obj != nil && obj.Pkg() != nil && obj.Pkg().Path() == "encoding/binary" && obj.Name() == "AppendUint32"
+}
+
+// c02AppendPaths enumerates, for the chain ending in v, the sequences of
+// appended items from the empty base to v (one sequence per phi alternative).
+func c02AppendPaths(v ssa.Value, tail []c02AppendItem, depth int, out *[][]c02AppendItem, why *string) {
+	if depth > 12 {
+		*why = "the append chain is longer than twelve steps"
+		return
+	}
+	switch x := v.(type) {
+	case *ssa.Phi:
+		for _, e := range x.Edges {
+			if e != ssa.Value(x) {
+				c02AppendPaths(e, tail, depth+1, out, why)
+			}
+		}
+		return
+	case *ssa.Slice:
+		// the empty start of the chain: make([]byte, 0, n) or buf[:0]
+		if n, ok := c02SliceLen(x, 0); ok && n == 0 {
+			*out = append(*out, append([]c02AppendItem{}, tail...))
+			return
+		}
+		if x.Low == nil && x.High == nil {
+			c02AppendPaths(x.X, tail, depth+1, out, why)
+			return
+		}
+		*why = "the chain is re-sliced with bounds"
+		return
+	case *ssa.MakeSlice:
+		if n, ok := c02ConstInt(x.Len, 0); ok && n == 0 {
+			*out = append(*out, append([]c02AppendItem{}, tail...))
+			return
+		}
+		*why = "the chain starts from a non-empty buffer"
+		return
+	case *ssa.Const:
+		if x.IsNil() {
+			*out = append(*out, append([]c02AppendItem{}, tail...))
+			return
+		}
+	case *ssa.Call:
+		if builtinName(x) == "append" && len(x.Call.Args) == 2 {
+			var items []c02AppendItem
+			src := x.Call.Args[1]
+			single := false
+			if sl, ok := src.(*ssa.Slice); ok {
+				if al, ok := sl.X.(*ssa.Alloc); ok && strings.Contains(al.Comment, "varargs") {
+					// append(b, x0, x1, …): the individual bytes, in index order
+					single = true
+					byIdx := map[int64]c02AppendItem{}
+					var idxs []int64
+					for _, rr := range refs(al) {
+						ia, ok := rr.(*ssa.IndexAddr)
+						if !ok {
+							continue
+						}
+						k, okk := c02ConstInt(ia.Index, 0)
+						for _, r2 := range refs(ia) {
+							if st, ok := r2.(*ssa.Store); ok && st.Addr == ssa.Value(ia) && okk {
+								byIdx[k] = c02AppendItem{in: x, val: st.Val, bytes: true}
+								idxs = append(idxs, k)
+							}
+						}
+					}
+					sort.Slice(idxs, func(i, j int) bool { return idxs[i] < idxs[j] })
+					for _, k := range idxs {
+						items = append(items, byIdx[k])
+					}
+				}
+			}
+			if !single {
+				items = []c02AppendItem{{in: x, val: src}}
+			}
+			c02AppendPaths(x.Call.Args[0], append(items, tail...), depth+1, out, why)
+			return
+		}
+		if obj := calleeObj(x); obj != nil && obj.Pkg() != nil && obj.Pkg().Path() == "encoding/binary" && obj.Name() == "AppendUint32" && len(x.Call.Args) >= 2 {
+			n := len(x.Call.Args)
+			it := c02AppendItem{in: x, val: x.Call.Args[n-1], isPut: true}
+			c02AppendPaths(x.Call.Args[n-2], append([]c02AppendItem{it}, tail...), depth+1, out, why)
+			return
+		}
+	}
+	*why = fmt.Sprintf("the chain starts from a value that is not an empty buffer (%T)", v)
+}
+
+// c02NonceAppendLayout judges an append-built nonce in fn (num/last are the
+// parameters of fn playing those roles).
+func c02NonceAppendLayout(p *Prog, r *Report, callerName string, fn *ssa.Function, v ssa.Value, num, last *ssa.Parameter) {
+	name := FuncName(p, fn)
+	if l := c02Name(p, fn); l != "" {
+		name = l
+	}
+	construct := callerName + " nonce counter layout in " + name
+	if callerName == name {
+		construct = callerName + " nonce counter layout (built in place)"
+	}
+	rule := "C02.T1-nonce-injective"
+	if num == nil || last == nil {
+		r.Undecide("%s: the segment number / finality flag do not reach the function that builds the nonce as plain parameters; cannot classify its layout", construct)
+		return
+	}
+	var paths [][]c02AppendItem
+	why := ""
+	c02AppendPaths(v, nil, 0, &paths, &why)
+	if why != "" || len(paths) == 0 {
+		r.Undecide("%s: the nonce is built with append, but %s; cannot classify", construct, why)
+		return
+	}
+	numIdx := c02ParamIndex(fn, num)
+	for _, path := range paths {
+		puts := 0
+		shifts := map[int64]int{}
+		for _, it := range path {
+			switch {
+			case it.isPut && it.val == ssa.Value(num):
+				puts++
+			case it.bytes:
+				if k, ok := c02ShiftOfNum(it.val, num); ok {
+					shifts[k]++
+					continue
+				}
+				fallthrough
+			default:
+				if c02ValueDeps(p, it.val, 2)[numIdx] {
+					r.Undecide("%s: %s reaches the nonce through an appended value at %s that is neither AppendUint32(%s) nor byte(%s>>k); cannot classify", construct, num.Name(), p.Pos(instrPos(it.in)), num.Name(), num.Name())
+					return
+				}
+			}
+		}
+		if puts >= 1 {
+			continue // all four bytes are appended as one unit
+		}
+		if len(shifts) == 0 {
+			// the dependence rule reports a nonce that ignores the number
+			continue
+		}
+		var problems []string
+		for _, k := range []int64{0, 8, 16, 24} {
+			if shifts[k] == 0 {
+				problems = append(problems, fmt.Sprintf("bits %d..%d of %s (byte(%s>>%d)) are never appended", k, k+7, num.Name(), num.Name(), k))
+			}
+		}
+		if len(problems) > 0 {
+			r.Violation(rule, construct, p.Pos(instrPos(path[0].in)),
+				"the appended counter does not carry the 32 bits of the segment number: "+strings.Join(problems, "; ")+" — two different segment numbers then share a nonce, so those segments can be swapped or duplicated without detection")
+			return
+		}
+	}
+	r.OK(rule, construct, p.Pos(fn.Pos()), "prefix, segment number (all 32 bits) and finality byte are appended one after the other: the pieces cannot overlap")
 }
